@@ -77,6 +77,49 @@ fn real_main() -> i32 {
             code
         }
         "c07child" => props::c07::child_main(args.get(1).map(String::as_str).unwrap_or("")),
+        "debug-repair" => {
+            // debugging aid: repair the (faulted) image of a replay file in both modes and print what comes out
+            let doc: serde_json::Value = serde_json::from_str(&std::fs::read_to_string(&args[1]).unwrap()).unwrap();
+            let case: runner::Case = serde_json::from_value(doc["case"].clone()).unwrap();
+            let s = sut::sut(&case.cfg.variant);
+            let sink = seams::SimSink::new(&seams::Sched::Full);
+            let _ = s.write(&case.cfg, &case.ops, sink.clone());
+            let mut img = sink.data();
+            let hlen = if case.cfg.enc() { 57 + 48 * case.cfg.recipients } else { 9 };
+            for f in &case.faults {
+                img = props::common::apply_fault(&img, f, hlen, s.consts().chunk as usize, None);
+            }
+            let rcfg = sut::ReadCfg::for_cfg(&case.cfg);
+            let ocfg = model::ArcCfg { variant: case.cfg.variant.clone(), layers: 0, level: 0, recipients: 0, reader: 0, rng_seed: 0, key_seed: 0 };
+            for auth in [true, false] {
+                let out = s.repair(std::rc::Rc::new(img.clone()), &rcfg, auth, &ocfg, &seams::Sched::Full);
+                println!("auth={auth}: init={:?} convert={:?} panic={:?} out_len={} src={:?}", out.init, out.convert, out.panic, out.out_image.len(), out.src);
+            }
+            if case.cfg.enc() && case.cfg.comp() {
+                // the same corruption seen by the compression layer alone: compressed stream of the
+                // unaltered archive with the fault applied at the same stream offset, wrapped as a
+                // compress-only archive, without and with 16 trailing garbage bytes
+                let vc = s.consts();
+                let lay = props::common::layout_of(&sink.data(), &case.cfg, vc.chunk as usize, vc.block as usize).unwrap();
+                let mut cs = lay.dec.enc_plain.clone();
+                for f in &case.faults {
+                    if let runner::Fault::Flip { byte, bit } = f {
+                        let soff = byte - hlen;
+                        let p = soff - 16 * (soff / (vc.chunk as usize + 16));
+                        cs[p] ^= 1 << bit;
+                    }
+                }
+                let plain_rcfg = sut::ReadCfg { keys: vec![], sched: seams::Sched::Full, budget: u64::MAX / 2, error_at_read: None, spill_path: None };
+                for extra in [0usize, 16] {
+                    let mut im = refmla::encode_header(2, None);
+                    im.extend_from_slice(&cs);
+                    im.extend(std::iter::repeat(0xA7).take(extra));
+                    let out = s.repair(std::rc::Rc::new(im), &plain_rcfg, true, &ocfg, &seams::Sched::Full);
+                    println!("compress-only view, {extra} trailing garbage bytes: convert={:?} out_len={}", out.convert, out.out_image.len());
+                }
+            }
+            0
+        }
         "replay" => {
             if args.len() < 2 {
                 usage();
